@@ -10,6 +10,10 @@ import (
 	"encoding/binary"
 	"encoding/json"
 	"fmt"
+	"io/ioutil"
+	"os"
+	"os/exec"
+	"path/filepath"
 
 	"github.com/Eyevinn/mp4ff/bits"
 	"github.com/Eyevinn/mp4ff/mp4"
@@ -17,6 +21,7 @@ import (
 
 func init() {
 	register("c12-replay", c12Replay)
+	register("c12-tool", c12Tool)
 }
 
 type faBox struct {
@@ -99,12 +104,26 @@ func baseTime(fragNr, track int) int64 {
 	return t
 }
 
+// c12EncBoxes: every traf additionally carries saiz, saio and senc boxes (left-over encryption boxes of a
+// decrypted file, what `add-sidx -removeEnc` is meant to strip).
+var c12EncBoxes bool
+
 func mMultiFragment(fragNr, ntracks int) (moof, mdat []byte) {
 	var payload []byte
 	build := func(offs []int64) []byte {
 		var trafs []byte
 		for t := 1; t <= ntracks; t++ {
-			trafs = cat(trafs, mkBox("traf", mTfhd(0x20000, int64(t), 0, 0, 0, 0, 0), mTfdt(1, baseTime(fragNr, t)), mTrun(1, 0xf01, offs[t-1], 0, fragSamples(fragNr, t))))
+			kids := [][]byte{mTfhd(0x20000, int64(t), 0, 0, 0, 0, 0), mTfdt(1, baseTime(fragNr, t)), mTrun(1, 0xf01, offs[t-1], 0, fragSamples(fragNr, t))}
+			if c12EncBoxes {
+				n := len(fragSamples(fragNr, t))
+				ivs := make([]byte, 8*n)
+				for i := range ivs {
+					ivs[i] = byte(i + 1)
+				}
+				kids = append(kids, mkFull("saiz", 0, 0, []byte{8}, be32(int64(n))), mkFull("saio", 0, 0, be32(1), be32(0)),
+					mkFull("senc", 0, 0, be32(int64(n)), ivs))
+			}
+			trafs = cat(trafs, mkBox("traf", kids...))
 		}
 		return mkBox("moof", mMfhd(int64(fragNr)), trafs)
 	}
@@ -367,6 +386,99 @@ func c12Replay(args []string) error {
 	return err
 }
 
+// c12Tool runs the built examples/add-sidx binary on every materialised layout (and on the same layouts with
+// left-over encryption boxes in every traf, with -removeEnc) and judges the index of its output.
+func c12Tool(args []string) error {
+	rep := newReport()
+	bin := argValue(args, "-bin", "")
+	stride := argInt(args, "-stride", 1)
+	dir, err := ioutil.TempDir("", "c12tool")
+	if err != nil {
+		return err
+	}
+	defer os.RemoveAll(dir)
+	runs, fails, n := 0, 0, 0
+	err = readLines(argValue(args, "-in", "-"), func(line []byte) error {
+		var c faCase
+		if err := json.Unmarshal(line, &c); err != nil {
+			return err
+		}
+		n++
+		if c.Moofless || c.P.Flags == "ism" || c.P.Flags == "both" || n%stride != int(seedFromEnv())%stride {
+			return nil
+		}
+		kinds := make([]string, len(c.File))
+		for i, b := range c.File {
+			kinds[i] = b.K
+		}
+		for _, enc := range []bool{false, true} {
+			c12EncBoxes = enc
+			file := cat(c.materialise()...)
+			c12EncBoxes = false
+			in := filepath.Join(dir, "in.mp4")
+			if err := ioutil.WriteFile(in, file, 0o644); err != nil {
+				return err
+			}
+			for _, nz := range []bool{false, true} {
+				var targs []string
+				if c.P.Flags == "onmoof" {
+					targs = append(targs, "-startSegOnMoof")
+				}
+				if nz {
+					targs = append(targs, "-nzEPT")
+				}
+				if enc {
+					targs = append(targs, "-removeEnc")
+				}
+				outp := filepath.Join(dir, "out.mp4")
+				cmd := exec.Command(bin, append(targs, in, outp)...)
+				var stderr bytes.Buffer
+				cmd.Stderr = &stderr
+				runs++
+				cs := J{"p": c.P, "boxes": kinds, "tool_args": targs, "leftover_encryption_boxes": enc}
+				if err := cmd.Run(); err != nil {
+					fails++
+					rep.Drift("tool/add-sidx-fails", "add-sidx exits non-zero on a well-formed fragmented file: "+stderr.String(), cs)
+					continue
+				}
+				out, err := ioutil.ReadFile(outp)
+				if err != nil {
+					return err
+				}
+				c12JudgeIndex(rep, &c, out, cs, nz, "tool/")
+				if enc {
+					// the stripped boxes are gone and every sample is still where its trun says
+					if bytes.Contains(out, []byte("senc")) || bytes.Contains(out, []byte("saiz")) || bytes.Contains(out, []byte("saio")) {
+						rep.Violation("tool/removeenc/boxes-left", "add-sidx -removeEnc leaves encryption boxes in the output", cs)
+					}
+					a, e1 := isoReadFragments(file)
+					b, e2 := isoReadFragments(out)
+					if e1 != nil || e2 != nil {
+						rep.Violation("tool/removeenc/unreadable", fmt.Sprintf("output of add-sidx -removeEnc cannot be read back: %v %v", e1, e2), cs)
+					} else {
+						for t, sa := range a {
+							if d := diffSamples(sa, b[t]); d != "" {
+								rep.Violation("tool/removeenc/samples", "samples differ after add-sidx -removeEnc (track "+fmt.Sprint(t)+"): "+d, cs)
+								break
+							}
+						}
+					}
+				}
+			}
+		}
+		var smp interface{}
+		if len(c.P.Fps) == 2 && c.P.Delim == "styp" {
+			smp = J{"p": c.P, "boxes": kinds, "tool": "add-sidx [-startSegOnMoof] [-nzEPT] [-removeEnc]"}
+		}
+		rep.Count("tool:"+string(line), true, smp)
+		return nil
+	})
+	rep.Extra["tool_runs"] = runs
+	rep.Extra["tool_failed"] = fails
+	rep.Done()
+	return err
+}
+
 type wSidx struct {
 	Pos, End    int64
 	Timescale   int64
@@ -425,10 +537,15 @@ func c12Index(rep *Report, c *faCase, file []byte, boxes [][]byte, cs J, nonZero
 		rep.Violation("updatesidx/encode-error", "Encode after UpdateSidx fails: "+err.Error(), cs)
 		return
 	}
-	out := buf.Bytes()
+	c12JudgeIndex(rep, c, buf.Bytes(), cs, nonZeroEPT, "")
+}
+
+// c12JudgeIndex reads the first top-level sidx of out with the independent walker and compares it with the
+// segments the specification prescribes (reference starts, contiguity, end of media, durations, EPT, timescale).
+func c12JudgeIndex(rep *Report, c *faCase, out []byte, cs J, nonZeroEPT bool, pfx string) {
 	top, err := walkBoxes(out, 0)
 	if err != nil {
-		rep.Violation("updatesidx/output-malformed", "output after UpdateSidx is not a well-formed box sequence: "+err.Error(), cs)
+		rep.Violation(pfx+"updatesidx/output-malformed", "output after UpdateSidx is not a well-formed box sequence: "+err.Error(), cs)
 		return
 	}
 	// first top-level sidx and the position after the last top-level sidx preceding the media
@@ -453,16 +570,16 @@ func c12Index(rep *Report, c *faCase, file []byte, boxes [][]byte, cs J, nonZero
 		}
 	}
 	if sx == nil {
-		rep.Violation("index/missing", "no top-level sidx in the output after UpdateSidx(addIfNotExists=true)", cs)
+		rep.Violation(pfx+"index/missing", "no top-level sidx in the output after UpdateSidx(addIfNotExists=true)", cs)
 		return
 	}
 	nseg := len(c.Expected)
 	info := J{"case": cs, "nonZeroEPT": nonZeroEPT, "sidx": sx}
 	key := func(k string) string {
 		if c.P.Segsidx >= 1 {
-			return k + "/segment-level-sidx-present"
+			return pfx + k + "/segment-level-sidx-present"
 		}
-		return k
+		return pfx + k
 	}
 	if len(sx.Sizes) != nseg {
 		rep.Violation(key("index/ref-count"), fmt.Sprintf("index has %d references for %d segments", len(sx.Sizes), nseg), info)
@@ -476,7 +593,7 @@ func c12Index(rep *Report, c *faCase, file []byte, boxes [][]byte, cs J, nonZero
 	for k := 0; k < nseg; k++ {
 		fragCount += len(c.Expected[k])
 		if fragCount > len(mdatEnds) {
-			rep.Violation("index/fragments-missing", "output holds fewer fragments than the input", info)
+			rep.Violation(pfx+"index/fragments-missing", "output holds fewer fragments than the input", info)
 			return
 		}
 		end := mdatEnds[fragCount-1]
@@ -507,9 +624,9 @@ func c12Index(rep *Report, c *faCase, file []byte, boxes [][]byte, cs J, nonZero
 		wantEpt = baseTime(1, 1) + 2
 	}
 	if sx.Ept != wantEpt {
-		rep.Violation("index/ept", fmt.Sprintf("earliest presentation time %d, expected %d", sx.Ept, wantEpt), info)
+		rep.Violation(pfx+"index/ept", fmt.Sprintf("earliest presentation time %d, expected %d", sx.Ept, wantEpt), info)
 	}
 	if sx.Timescale != 1000 {
-		rep.Violation("index/timescale", "index timescale differs from the reference track's", info)
+		rep.Violation(pfx+"index/timescale", "index timescale differs from the reference track's", info)
 	}
 }
